@@ -81,7 +81,8 @@ BOUNDS = {
              "preloads.use_w_tilde in {None,True,False} x preloads.w_tilde present/absent, and preloads=None; shared-tables histories: one "
              "WTildeImaging object used by 3-4 successive w-tilde inversions with two independent symbolic data vectors and different "
              "mappers / mixes, shared via one Preloads object or via DatasetInterface, each compared with the mapping formalism on its "
-             "own inputs; geometries tall / wide (9x5 / 5x9 frames, 5x2 / 2x5 unmasked strips, 5x3 / 3x5 PSFs) and big (7x7 frame, 3x3 block, noise "
+             "own inputs; slots filled through the public Preloads.set_* methods from two identical fits whose noise map is a scaled version of the "
+             "dataset's (sq3, [M], [F,M], [M,M], both formalisms; thorough also plus, tall); geometries tall / wide (9x5 / 5x9 frames, 5x2 / 2x5 unmasked strips, 5x3 / 3x5 PSFs) and big (7x7 frame, 3x3 block, noise "
              "map x 2^16) with mixes [F,M], [M,M], 8 named-slot subsets, factory case and one shared-tables history each; concrete floats "
              "compared relative to the largest magnitude of the expected output (1e-9); positive-negative solver",
     "thorough": "as quick, and additionally (same obligations, more of the input space). GEOMETRIES (11): sq3; plus (6x6 frame, 7 pixels, "
@@ -629,6 +630,66 @@ def case_tables(ctx, geom, steps, share):
     hx.validate(ctx, body_tables, inputs, kw, A, every=1)
 
 
+SETTERS = ("set_w_tilde_imaging", "set_operated_mapping_matrix_with_preloads", "set_linear_func_inversion_dicts",
+           "set_curvature_matrix", "set_regularization_matrix_and_term")
+
+
+def body_setters(inp, geom, mix, wt, setters):
+    """slots filled through the public Preloads.set_* methods from two identical fits whose noise map is a SCALED version of
+    the dataset's noise map (first value unchanged) - the way PyAutoGalaxy / PyAutoLens fill them; the inversions use the
+    fit's (scaled) noise map and must equal the inversion without preloads"""
+    with _check_reconstruction(False):
+        return _body_setters(inp, geom, mix, wt, setters)
+
+
+def _body_setters(inp, geom, mix, wt, setters):
+    import types
+    import autoarray as aa
+    g = _geom(geom)
+    data = np.asarray(inp["d"]).reshape(-1)
+    noise_ds = np.array(g["noise"], dtype=float)
+    noise_fit = noise_ds.copy()
+    noise_fit[2] *= 2.0
+    noise_fit[g["n"] - 1] *= 4.0
+    A, E, ref = {}, {}, {}
+    _observe(_fresh_inversion(g, data, noise_fit, mix, wt), OBSERVED, ref, "")
+    base = _dataset(g, data, noise_ds)            # fit.dataset: un-scaled noise map
+    fits = []
+    for _ in range(2):
+        inv = _fresh_inversion(g, data, noise_fit, mix, wt)
+        fits.append(types.SimpleNamespace(inversion=inv, noise_map=inv.dataset.noise_map, dataset=base))
+    pl = aa.Preloads()
+    tag = "+".join(s_[4:] for s_ in setters)
+    for name in setters:
+        r = hx.attempt(lambda: getattr(pl, name)(fits[0], fits[1]))
+        if isinstance(r, hx.Raised) and r.name != "IndexError":      # (IndexError: the recorded mapping-formalism side observation)
+            A["%s:%s/%s|%s|%s" % (geom, mix, "wtilde" if wt else "mapping", tag, name)] = r
+            E["%s:%s/%s|%s|%s" % (geom, mix, "wtilde" if wt else "mapping", tag, name)] = "filled"
+    ds = _dataset(g, data, noise_fit)
+    objs = _linear_objs(g, ds.mask, mix)
+    for i in range(2):
+        pre = "%s:%s/%s|setters %s|#%d|" % (geom, mix, "wtilde" if wt else "mapping", tag, i)
+        inv = hx.attempt(lambda: aa.Inversion(dataset=ds, linear_obj_list=objs, settings=_settings(wt), preloads=pl))
+        if isinstance(inv, hx.Raised):
+            A[pre + "construct"], E[pre + "construct"] = inv, "constructed"
+            continue
+        _observe(inv, OBSERVED, A, pre)
+        for nme in OBSERVED:
+            E[pre + nme] = ref[nme]
+    return A, E
+
+
+def case_setters(ctx, geom, mix, wt, setters):
+    g = _geom(geom)
+    inputs = _inputs(ctx, g, False)
+    ctx.set_case(geom=geom, mix=mix, use_w_tilde=wt, setters=setters)
+    kw = {"geom": geom, "mix": mix, "wt": wt, "setters": setters}
+    ctx.set_inputs(**inputs)
+    A, E = body_setters(inputs, **kw)
+    _check_in_order(ctx, A, E, None, None)
+    hx.validate(ctx, body_setters, inputs, kw, A, every=1)
+
+
 CONCRETE_KEYS = ("curvature_matrix", "regularization_matrix", "curvature_reg_matrix", "log_det_curvature_reg_matrix_term",
                  "log_det_regularization_matrix_term", "curvature_matrix_reread")
 
@@ -750,7 +811,7 @@ EXT_QUICK = [[s_] for s_ in EXT_SLOTS] + [G1, G2, list(EXT_SLOTS)]
 NOISE_SUBSETS = [["curvature_matrix"], ["w_tilde"], ["operated_mapping_matrix"], ["regularization_matrix", "log_det_regularization_matrix_term"],
                  ["w_tilde", "curvature_matrix", "operated_mapping_matrix"], list(SLOTS)]
 
-BODIES = {"case_seq": body_seq, "case_factory": body_factory, "case_tables": body_tables}
+BODIES = {"case_seq": body_seq, "case_factory": body_factory, "case_tables": body_tables, "case_setters": body_setters}
 
 
 def _all_subsets():
@@ -898,6 +959,12 @@ def _cases_deep():
 
 def cases(tier):
     out = _cases_base(tier)
+    # (10) slots filled through the public Preloads.set_* methods from fits with a scaled noise map
+    for geom in ("sq3",) if tier == "quick" else ("sq3", "plus", "tall"):
+        for mix in ("M", "FM", "MM"):
+            for wt in (True, False):
+                out.append(("case_setters", {"geom": geom, "mix": mix, "wt": wt, "setters": ["set_w_tilde_imaging"]}))
+                out.append(("case_setters", {"geom": geom, "mix": mix, "wt": wt, "setters": list(SETTERS)}))
     if tier != "quick":
         seen = {json.dumps(c[:2], sort_keys=True) for c in out}
         for c in _cases_deep():
